@@ -1,8 +1,11 @@
-(* Byte-level framing of an FTDC stream: read.go readBufBSON / readDiagnostic and
-   the composition with readChunks as the consumer observes it (chunks delivered,
-   error reported or not).  Definitions only. *)
+(* Byte-level reading of an FTDC stream: read.go readBufBSON / readDiagnostic,
+   and readChunks as it reads the compressed payload with the same framing
+   function, composed as the consumer observes them (chunks delivered, error
+   reported or not).  Written so that it can be evaluated on hostile input: no
+   attacker-controlled length is converted to a unary number before it has been
+   compared with the data really present.  Definitions only. *)
 From Coq Require Import ZArith NArith List Bool.
-From FV.Model Require Import Bytes Bson Metrics Codec.
+From FV.Model Require Import Bytes Bson Metrics Codec Validate.
 Import ListNotations.
 Open Scope Z_scope.
 
@@ -18,15 +21,21 @@ Definition read_one (l : bytes) : fres :=
   match l with
   | [] => FEof
   | _ =>
-      if Nat.ltb (length l) 4 then FErr FUnexpectedEof
-      else
-        let size := s32 (le_dec (firstn 4 l)) in
-        if size <? 5 then FErr FBadLength
-        else if Nat.ltb (length l) (Z.to_nat size) then FErr FUnexpectedEof
-        else match dec_doc (firstn (Z.to_nat size) l) with
-             | Some (d, []) => FDoc d (skipn (Z.to_nat size) l)
-             | _ => FErr FMalformed
-             end
+      match read_i32 l with
+      | None => FErr FUnexpectedEof
+      | Some (size, _) =>
+          if size <? 5 then FErr FBadLength
+          else if Z.of_nat (length l) <? size then FErr FUnexpectedEof
+          else
+            let n := Z.to_nat size in
+            let b := firstn n l in
+            if validate b then
+              match dec_doc b with
+              | Some (d, []) => FDoc d (skipn n l)
+              | _ => FErr FMalformed
+              end
+            else FErr FMalformed
+      end
   end.
 
 (* readDiagnostic: documents until the clean end or the first error; every
@@ -45,14 +54,74 @@ Definition read_docs (l : bytes) : list doc * option ferr := read_docs_fuel (S (
 
 Section Zlib.
 Variable inflate : bytes -> option bytes.
-Variable cap : option N.
+(* the reader's bound on metrics x samples of one chunk (2^27 in read.go), and an
+   optional smaller bound below which this executable model is willing to expand a
+   chunk (None for the theorems) *)
+Variable limit : N.
+Variable evalcap : option N.
+
+Definition too_big (bound nmetrics ndeltas : N) : bool :=
+  (bound <? ndeltas)%N || ((0 <? nmetrics)%N && (bound / nmetrics <? ndeltas)%N).
+
+(* readChunks on one type-1 document, reading the payload with read_one *)
+Definition read_chunk_b (meta : option doc) (d : doc) : chunk + rerr :=
+  match lookup k_data d with
+  | None => inr ENoData
+  | Some (VBinary _ zb) =>
+      if Nat.ltb (length zb) 4 then inr EBadData else
+      match inflate (skipn 4 zb) with
+      | None => inr EZlibHeader
+      | Some p =>
+          match read_one p with
+          | FDoc ref r1 =>
+              match take_exact 8 r1 with
+              | None => inr EShortCounts
+              | Some (w, r2) =>
+                  let nmetrics := le_dec (firstn 4 w) in
+                  let ndeltas := le_dec (skipn 4 w) in
+                  let ms := metrics_of_doc [] ref in
+                  if negb (nmetrics =? N.of_nat (length ms))%N then inr EMismatch
+                  else if too_big limit nmetrics ndeltas then inr EMismatch (* rejected as unsupported size *)
+                  else if (match evalcap with Some c => too_big c nmetrics ndeltas | None => false end) then inr EHuge
+                  else
+                    match read_deltas (N.to_nat (nmetrics * ndeltas)) 0%N r2 with
+                    | None => inr EVarint
+                    | Some (ds, _) =>
+                        let cols := split_every (N.to_nat ndeltas) (length ms) ds in
+                        inl (mkChunk (map (fun mc => (fst mc, undelta (m_start (fst mc)) (snd mc)))
+                                          (combine ms cols))
+                                     (Z.of_N ndeltas + 1)
+                                     (match lookup k_id d with Some (VDateTime t) => Some t | _ => None end)
+                                     meta ref)
+                    end
+              end
+          | _ => inr ERefDoc
+          end
+      end
+  | Some _ => inr EBadData
+  end.
+
+Fixpoint read_chunks_b (meta : option doc) (ds : list doc) : list chunk * option rerr :=
+  match ds with
+  | [] => ([], None)
+  | d :: r =>
+      let ty := lookup k_type d in
+      if is_num 0 ty then read_chunks_b (Some d) r
+      else if negb (is_num 1 ty) then read_chunks_b meta r
+      else match read_chunk_b meta d with
+           | inl c => let '(cs, e) := read_chunks_b meta r in (c :: cs, e)
+           | inr e => ([], Some e)
+           end
+  end.
 
 (* what a consumer of ReadChunks observes: the chunks delivered before the first
    error of the chunk decoder, and whether Err() is non-nil after Next() has
    returned false (the framing error or the decoder's error) *)
 Definition read_stream (bs : bytes) : list chunk * bool :=
   let '(docs, fe) := read_docs bs in
-  let '(cs, ce) := read_chunks_gen inflate cap None docs in
+  let '(cs, ce) := read_chunks_b None docs in
   (cs, match fe, ce with None, None => false | _, _ => true end).
 
 End Zlib.
+
+Definition reader_limit : N := 134217728%N.   (* maxChunkValues = 1 << 27 *)
